@@ -17,7 +17,7 @@ import (
 //        its defining expression changes nothing; every row has one column per announced field.
 
 func modesStore(r *Rand) []KV {
-	pool := []KV{{"a", "1"}, {"a1", "x"}, {"ab", "2"}, {"abc", "10"}, {"b", ""}, {"b1", "7"}, {"ba", "abc"}, {"k1", "3"}, {"k2", "v"}, {"k3", "-4"}, {"l", "2.5"}, {"m", "0"}, {"n", "a,b"}, {"o", "1,2,3"}}
+	pool := []KV{{"a", "1"}, {"a1", "x"}, {"ab", "2"}, {"abc", "10"}, {"b", ""}, {"b1", "7"}, {"ba", "abc"}, {"k1", "3"}, {"k2", "v"}, {"k3", "-4"}, {"l", "2.5"}, {"m", "0"}, {"n", "a,b"}, {"o", "1,2,3"}, {"p", "p"}, {"q1", "^q"}, {"r", "[0-9]"}, {"s5", "5$"}, {"ab1", "b"}, {"ab2", "^a"}, {"ab3", "3"}}
 	n := r.Intn(len(pool) + 1)
 	idx := make([]int, len(pool))
 	for i := range idx {
@@ -92,6 +92,13 @@ func runMODES(e *Env) (*Summary, error) {
 				o.OrderedBetween = true
 				g := NewGen(r, o)
 				q := g.Select()
+				if r.Chance(1, 12) {
+					// operators whose right operand depends on the row (the vector forms cache per chunk)
+					q = pick(r, []string{
+						"select * where key ~= value", "select key, value where value ~= key | key ~= value", "select * where upper(key) ^= upper(value)",
+						"select key where key between value and 'z'", "select * where value in (key, 'x', '1')", "select key, key ~= value as m where strlen(value) > 0",
+					})
+				}
 				ordered := false
 				if r.Chance(1, 4) && len(g.aliases) > 0 {
 					a := pick(r, g.aliases)
